@@ -66,6 +66,11 @@ def jobs(tier, seed):
                 out.append(('e2e-hessdiag-%s-o%d-n%d' % (method, order, n), dict(kind='e2e', cls='Hessdiag', method=method, n=n, order=order, cplx=False)))
             if method in ('central', 'central2', 'forward', 'backward') and n <= 2:
                 out.append(('e2e-hessian-%s-n%d-cplx' % (method, n), dict(kind='e2e', cls='Hessian', method=method, n=n, order=0, cplx=True)))
+    # the stencil identities (symmetric fill included) also for n = 4 and 5: index bookkeeping that is right up to n = 3 only
+    for n in ((4, 5) if tier != 'thorough' else (5,)):
+        if True:
+            for method in HMETHODS:
+                out.append(('stencil-hessian-%s-n%d' % (method, n), dict(kind='stencil', cls='Hessian', method=method, n=n, order=0, cplx=False)))
     out.append(('length1-array', dict(kind='len1', cls='', method='', n=2, order=0, cplx=False)))
     return out
 
